@@ -98,4 +98,166 @@ theorem map_restrict_of_fits (sc : Schema) (l : List DocRec) (h : ∀ d ∈ l, d
 theorem contentOf_singleton (sc : Schema) (s : Seg) : contentOf sc [s] = s.liveDocs.map (restrict sc) := by
   simp [contentOf]
 
+/-! ### the two commits for closed-form sub-writers -/
+
+/-- `WM.C18.mp` for the closed forms `subOf` of the sub-writers. -/
+theorem mpCommit_closed (w : Writer) (hwf : w.WF) (hfits : ∀ d ∈ w.ndocs, d.fits w.schema = true)
+    (hna : w.added = false → w.ndocs = []) (plan : Plan) (hplan : PlanOK plan)
+    (assign : List (List DocRec)) (hfit : ∀ ds ∈ assign, ∀ d ∈ ds, d.fits w.schema = true) :
+    ∃ t', w.mpCommit (assign.map (subOf w.schema)) plan = .ok t' ∧ t'.WF ∧ t'.schema = w.schema ∧
+      t'.content.Perm (contentOf w.schema w.segs ++ w.ndocs ++ assign.flatten) := by
+  obtain ⟨w1, h1, wf1⟩ := Writer.addReaders_ok w (plan w.segs).1 hwf
+    (fun s hs => hwf.segs s (hplan.sub _ s (Or.inl hs)))
+  obtain ⟨b1, b2, b3, b4, b5⟩ := Writer.addReaders_fields w _ w1 h1
+  have hna1 : w1.added = false → w1.ndocs = [] := by
+    intro h
+    rw [b4] at h
+    simp only [Bool.or_eq_false_iff, Bool.not_eq_false', List.isEmpty_iff] at h
+    rw [b5, hna h.1, h.2]; simp [contentOf]
+  have hsub : ∀ s ∈ assign.map (subOf w.schema), s.pool = allPostings s.ndocs := by
+    intro s hs
+    simp only [List.mem_map] at hs
+    obtain ⟨ds, _, rfl⟩ := hs
+    rfl
+  obtain ⟨fwf, fdocs, fdel⟩ := Writer.mpFinal_spec w1 (assign.map (subOf w.schema)) wf1 hna1 hsub
+  refine ⟨_, by unfold Writer.mpCommit; simp only [h1, Except.map]; rfl, ?_, b1, ?_⟩
+  · intro s hs
+    simp only [List.mem_append, List.mem_singleton] at hs
+    rcases hs with hs | rfl
+    · exact hwf.segs s (hplan.sub _ s (Or.inr hs))
+    · exact fwf
+  · simp only [Toc.content, contentOf_append, b1]
+    have hfin : contentOf w.schema [w1.mpFinal (assign.map (subOf w.schema))]
+        = w.ndocs ++ contentOf w.schema (plan w.segs).1 ++ assign.flatten := by
+      rw [contentOf_singleton, Seg.liveDocs_of_no_deletions _ fdel, fdocs, flatten_subOf, b5, List.map_append,
+        List.map_append]
+      rw [map_restrict_of_fits _ _ hfits, map_restrict_of_fits _ assign.flatten (by
+        intro d hd; obtain ⟨ds, hds, hd'⟩ := List.mem_flatten.mp hd; exact hfit ds hds d hd'),
+        contentOf_restrict]
+    rw [hfin]
+    have h2 := contentOf_perm w.schema (hplan w.segs)
+    rw [contentOf_append] at h2
+    -- u ++ (n ++ m ++ a)  ~  (m ++ u) ++ n ++ a
+    refine List.Perm.trans ?_ ((h2.append_right w.ndocs).append_right assign.flatten)
+    simp only [List.append_assoc]
+    exact (List.Perm.append_left _ (List.perm_append_comm_assoc _ _ _)).trans (List.perm_append_comm_assoc _ _ _)
+
+/-- `WM.C18.mp_multisegment` for the closed forms `subOf` of the sub-writers. -/
+theorem mpCommitMulti_closed (w : Writer) (hwf : w.WF) (hfits : ∀ d ∈ w.ndocs, d.fits w.schema = true)
+    (hna : w.added = false → w.ndocs = []) (plan : Plan) (hplan : PlanOK plan)
+    (assign : List (List DocRec)) (hfit : ∀ ds ∈ assign, ∀ d ∈ ds, d.fits w.schema = true) :
+    ∃ t', w.mpCommitMulti (assign.map (subOf w.schema)) plan = .ok t' ∧ t'.WF ∧ t'.schema = w.schema ∧
+      t'.content.Perm (contentOf w.schema w.segs ++ w.ndocs ++ assign.flatten) := by
+  obtain ⟨w1, h1, wf1⟩ := Writer.addReaders_ok w (plan w.segs).1 hwf
+    (fun s hs => hwf.segs s (hplan.sub _ s (Or.inl hs)))
+  obtain ⟨b1, b2, b3, b4, b5⟩ := Writer.addReaders_fields w _ w1 h1
+  have hsubwf : ∀ ds, (subOf w.schema ds).finalizeSegment.WF := by
+    intro ds
+    exact Writer.finalizeSegment_wf _ ⟨by intro s hs; simp [subOf] at hs, List.Perm.refl _⟩
+  have hsubc : contentOf w.schema ((assign.map (subOf w.schema)).map Writer.finalizeSegment) = assign.flatten := by
+    simp only [contentOf, List.map_map, List.flatMap_map]
+    induction assign with
+    | nil => rfl
+    | cons ds r ih =>
+      simp only [List.flatMap_cons, List.flatten_cons, Function.comp_def]
+      rw [Seg.liveDocs_of_no_deletions _ rfl]
+      simp only [Function.comp_def] at ih
+      rw [ih (fun x hx => hfit x (by simp [hx]))]
+      congr 1
+      exact map_restrict_of_fits _ _ (hfit ds (by simp))
+  have hown : contentOf w.schema (if w1.added then [w1.finalizeSegment] else [])
+      = w.ndocs ++ contentOf w.schema (plan w.segs).1 := by
+    by_cases ha : w1.added = true
+    · simp only [ha, if_true]
+      rw [contentOf_singleton, Seg.liveDocs_of_no_deletions _ rfl]
+      simp only [Writer.finalizeSegment, b5, List.map_append]
+      rw [map_restrict_of_fits _ _ hfits, contentOf_restrict]
+    · have ha' : w1.added = false := by simpa using ha
+      have h := ha'
+      rw [b4] at h
+      simp only [Bool.or_eq_false_iff, Bool.not_eq_false', List.isEmpty_iff] at h
+      simp [ha', hna h.1, h.2, contentOf]
+  refine ⟨_, by unfold Writer.mpCommitMulti; simp only [h1, Except.map]; rfl, ?_, b1, ?_⟩
+  · intro s hs
+    simp only [List.mem_append, List.mem_map] at hs
+    rcases hs with (hs | ⟨x, hx, rfl⟩) | hs
+    · exact hwf.segs s (hplan.sub _ s (Or.inr hs))
+    · obtain ⟨ds, _, rfl⟩ := hx
+      exact hsubwf ds
+    · split at hs
+      · simp only [List.mem_singleton] at hs; subst hs; exact Writer.finalizeSegment_wf w1 wf1
+      · simp at hs
+  · simp only [Toc.content, contentOf_append, b1, hsubc, hown]
+    have h2 := contentOf_perm w.schema (hplan w.segs)
+    rw [contentOf_append] at h2
+    -- u ++ a ++ (n ++ m)  ~  (m ++ u) ++ n ++ a
+    refine List.Perm.trans ?_ ((h2.append_right w.ndocs).append_right assign.flatten)
+    simp only [List.append_assoc]
+    have h3 : (assign.flatten ++ (w.ndocs ++ contentOf w.schema (plan w.segs).1)).Perm
+        (contentOf w.schema (plan w.segs).1 ++ (w.ndocs ++ assign.flatten)) := by
+      refine List.perm_append_comm.trans ?_
+      simp only [List.append_assoc]
+      exact List.perm_append_comm_assoc _ _ _
+    exact (List.Perm.append_left _ h3).trans (List.perm_append_comm_assoc _ _ _)
+
+/-! ### sub-writers as results of running `subWriter` -/
+
+/-- what the parent reads of a finished sub-writer: `_merge_subsegments` / the multi-segment commit
+    use only the per-document data and the posting run of the sub-segment -/
+def subView (s : Writer) : List DocRec × List Posting := (s.ndocs, s.pool)
+
+theorem mergeSubs_congr (subs subs' : List Writer) (h : subs.map subView = subs'.map subView)
+    (ndocs : List DocRec) (srcs : List (List Posting)) : mergeSubs ndocs srcs subs = mergeSubs ndocs srcs subs' := by
+  induction subs generalizing subs' ndocs srcs with
+  | nil => cases subs' with
+    | nil => rfl
+    | cons _ _ => simp at h
+  | cons a r ih => cases subs' with
+    | nil => simp at h
+    | cons b r' =>
+      simp only [List.map_cons, List.cons.injEq, subView, Prod.mk.injEq] at h
+      simp only [mergeSubs, subRun, h.1.1, h.1.2]
+      exact ih r' h.2 _ _
+
+theorem Writer.mpCommit_congr (w : Writer) (subs subs' : List Writer) (h : subs.map subView = subs'.map subView) (plan : Plan) :
+    w.mpCommit subs plan = w.mpCommit subs' plan := by
+  simp only [Writer.mpCommit, Writer.mpFinal, mergeSubs_congr subs subs' h]
+
+theorem Writer.mpCommitMulti_congr (w : Writer) (subs subs' : List Writer) (h : subs.map subView = subs'.map subView) (plan : Plan) :
+    w.mpCommitMulti subs plan = w.mpCommitMulti subs' plan := by
+  have : subs.map Writer.finalizeSegment = subs'.map Writer.finalizeSegment := by
+    have e : Writer.finalizeSegment = (fun v : List DocRec × List Posting =>
+        ({ docs := v.1, posts := v.2.mergeSort Posting.le, deleted := [] } : Seg)) ∘ subView := rfl
+    rw [e, ← List.map_map, ← List.map_map, h]
+  simp only [Writer.mpCommitMulti, this]
+
+/-- `subs` are the writers the sub-processes produce for the assignment `assign`: the `i`-th ran
+    `add_document` on the `i`-th list, none raised -/
+inductive SubsOf (sc : Schema) : List (List DocRec) → List Writer → Prop
+  | nil : SubsOf sc [] []
+  | cons {ds s r rs} : subWriter sc ds = .ok s → SubsOf sc r rs → SubsOf sc (ds :: r) (s :: rs)
+
+/-- the writers the sub-processes really produce are, for the parent, the closed forms `subOf` -/
+theorem SubsOf.view (sc : Schema) (assign : List (List DocRec)) (subs : List Writer) (h : SubsOf sc assign subs)
+    (hfit : ∀ ds ∈ assign, ∀ d ∈ ds, d.fits sc = true) :
+    subs.map subView = (assign.map (subOf sc)).map subView := by
+  induction h with
+  | nil => rfl
+  | @cons ds s r rs hds _ ih =>
+    obtain ⟨w, h1, _, h3, h4, _⟩ := subWriter_ok sc ds (hfit ds (by simp))
+    rw [hds] at h1
+    cases h1
+    simp only [List.map_cons, ih (fun x hx => hfit x (by simp [hx]))]
+    simp [subView, subOf, h3, h4]
+
+/-- and they exist: no sub-writer rejects a document of the schema -/
+theorem SubsOf.exist (sc : Schema) (assign : List (List DocRec)) (hfit : ∀ ds ∈ assign, ∀ d ∈ ds, d.fits sc = true) :
+    ∃ subs, SubsOf sc assign subs := by
+  induction assign with
+  | nil => exact ⟨[], .nil⟩
+  | cons ds r ih =>
+    obtain ⟨subs, hs⟩ := ih (fun x hx => hfit x (by simp [hx]))
+    obtain ⟨w, h1, _⟩ := subWriter_ok sc ds (hfit ds (by simp))
+    exact ⟨w :: subs, .cons h1 hs⟩
+
 end WM.Index
